@@ -81,13 +81,13 @@ matched by signature; a violation whose signature is not listed exits 1.
 
 ### 9.5 Seeded changes
 
-Four rounds, 240 changes in all, were written by sub-agents - one agent per property and round. Each agent saw only
+Five rounds, 300 changes in all, were written by sub-agents - one agent per property and round. Each agent saw only
 the property's text (statement, quantifier, code anchors) and a scratch git worktree of /repo, never /verif. Each
 change passes the repo's suite (331 tests) and comes with a demonstration script that exits 1 on the changed tree and
 0 on the unchanged one (both verified again here). Every change was applied to /repo's working tree, the property's
 quick check was run, and the change was reverted (`harness/seeded_eval.py` repeats this; nothing was ever committed
 to /repo; the later evaluations ran in scratch worktrees through `VERIF_REPO`). They are kept under
-`seeded/<id>/mK` (round 1), `r2mK`, `r3mK` and `r4mK` with `patch.diff`, `demo.py` and `meta.json`;
+`seeded/<id>/mK` (round 1), `r2mK`, `r3mK`, `r4mK` and `r5mK` with `patch.diff`, `demo.py` and `meta.json`;
 `meta.json.history` records the verdict of every evaluation. Two changes are marked `obsolete`: a later repair of
 /repo made them harmless (their own demonstration passes on the changed tree) - C08/r4m1 and C10/r3m2.
 
@@ -119,7 +119,21 @@ to /repo; the later evaluations ran in scratch worktrees through `VERIF_REPO`). 
   (C11), powers of two missing from the constant pool (C14), no code outside every function (C16), no transfers
   through memory, no valid request refused, no retarget combined with a symbol deletion (C18), no hidden version
   entries (C19); and the out-of-domain filter of C03 also switched off the one clause that holds for every rewrite.
-* After the strengthening all 238 live changes are caught with a failing input; the per-property lists above show each change and
+* Round 5 (agents told what four rounds had already covered and asked for changes in interface glue, refusal paths,
+  features used together, and code outside the anchored files): 38 of 60 caught with a failing input at the first
+  evaluation, 1 only as a broken correspondence, 20 missed, 1 crashed the runner. The reasons, again generator blind
+  spots with two oracle gaps: no registration that the interface refuses (a refused request that stays registered,
+  C01), no `delete_function` (C02), no `retarget_symbol_uses` in the same context as edits (C03, C09, C11), no patch
+  with code in a second executable section (C03), no `.align` directly in front of a label (C05), no code patch
+  into data behind a function (C06), no `register_insert_function` next to scope registrations and no block that
+  starts behind uncovered bytes (C07), no directive behind a terminator in front of an unreferenced label (C08), no
+  comparison of what a *refused* batch leaves behind (C09), padding bytes not compared with the listing and no
+  decode mode (C10), no command-line driver (C11), the module entry point (C12), a module symbol named like a
+  temporary label (C13), escapes encoded by the code under test (C15), the same patch twice and explicit
+  `constraints=` (C16), shifted version ids (C19). Each got a generator or an independent oracle; the emodify case
+  format gained `refused`, `fn` (one `delete_function` call), `retargets`, `insert_functions`, `empty_sections`
+  and the `loop` instruction.
+* After the strengthening all 298 live changes are caught with a failing input; the per-property lists above show each change and
   both verdicts. What the strengthened checks (and two side remarks of seeding agents, reproduced before anything
   was done about them) found on the *unchanged* tree is in `known_findings.json`: the DT_INIT typo in
   `_can_remove_block` (repaired, d4827ab); a label at the end of a patch moved behind the bytes that follow the
@@ -135,18 +149,33 @@ to /repo; the later evaluations ran in scratch worktrees through `VERIF_REPO`). 
   temporary for the assembler (b42451a); `.zero 0` behind an unreachable label tripped an assertion (d0ba9e3); CFI
   directives of several empty patch blocks were merged in reverse (0ef3f24) and those of a removed empty block were
   dropped (d9afb4f - `empty_block_keeps_all`); code inserted behind a patch that ends in data belonged to no function
-  (42a7576 - `IR.loopInsert`). Recorded with witnesses: C03 (two), C05, C08, C09, C10, C16. A false alarm of C11 on the unchanged tree (unlaid-out modules with several
+  (42a7576 - `IR.loopInsert`). Round 5, repaired: a read register outside the scratch pool or also clobbered made
+  `_allocate_patch_registers` die in `list.remove` (1c07dac; the model's `removeAll` and `removeAll_err` follow); a
+  section without byte intervals made every `apply()` lay the whole module out again from address 0 (79678e5); the
+  empty block dropped at the end of a patch's second section stayed in cfiDirectives/alignment/encodings (cd66bc9);
+  which of two symbols of one name a patch binds to depended on set order (65bdcea); `retarget_symbol_uses` left
+  the Branch edge of a `loop A` instruction on A (793ca62). Round 5, recorded: the C18 return-edge finding seen
+  through C03's return clause (corpus/emodify/14), the boundary `.cfi_endproc .cfi_startproc` at a block end that
+  slides behind the next block's entry patch after a patch ending in an internal call (corpus/c08/02).
+  Recorded with witnesses in round 4: C03 (two), C05, C08, C09, C10, C16. A false alarm of C11 on the unchanged tree (unlaid-out modules with several
   sections: patch ids follow the section order `gtirb_layout` happens to choose) was found by the clean-tree sweep
   under `VERIF_SEED=1` and removed by keeping that variation to one section; a false alarm of C03's specification
   (a return edge to the proxy that replaced a proxy-deleted return site) was found by the thorough tier and the
   specification corrected. One specification clause was relaxed with the reason stated in the runner's
   ASSUMPTIONS (C05: a patch's branch-target label at the very end of its byte interval has to stay on a zero-sized
   block; C08: an insertion exactly at a `.cfi_startproc` that is keyed to the end of the preceding block is not
-  judged for coverage).
+  judged for coverage). False alarms of round 5, found by running the strengthened checks on the unchanged tree
+  with several seeds and in the thorough tier before anything was committed, and removed in the oracle (never
+  listed as findings): C10's decode-mode oracle took "the block that ends where the padding begins" although
+  nested views and empty blocks may end there in several modes (now: one of theirs); the listing specification took
+  the first alignment request at a piece's first aligned offset where a block's own `.align` and a patch's request
+  coincide (now the strictest, `firstAlign`); C07 cases with uncovered leading bytes kept alignment entries that did
+  not hold before the rewrite; C08's directive accounting counted a procedure deleted as a whole across adjacent
+  ranges; C05 flagged the zero-sized tail of a recorded whole-block deletion.
 
 ### 9.6 Observed on the unchanged tree, outside what the checks exercise
 
-Reported by the round-4 seeding agents (scripts reproduced here), judged genuine or arguable, and *not* turned into
+Reported by the round-4 and round-5 seeding agents (scripts reproduced here), judged genuine or arguable, and *not* turned into
 checks - each would need an engine the machinery does not have, or lies at the edge of a property's quantifier.
 They are not in `known_findings.json` because no check produces them; they are listed so that nobody takes the
 silence of the checks for a claim.
@@ -157,7 +186,8 @@ silence of the checks for a claim.
   relative to the section start and generates unlaid-out modules with one section only; the C01 listing is per byte
   interval. A repair belongs in gtirb_layout.
 * C01 - `replace_at` with a patch whose assembly text is empty leaves the replaced range in place
-  (`if not assembler_result: continue`).
+  (`if not assembler_result: continue`; `Patch.get_asm` documents "if None is returned, no insertion takes place",
+  and the empty string is treated the same way).
 * C02/C05 - byte intervals with overlapping blocks: `edit_byte_interval` (its own TODO) moves only blocks that
   start behind the edit, and `join_byte_intervals` starts padding behind the block with the highest offset; the
   listing the properties speak of has no overlapping blocks, and the generators of E-modify produce none.
@@ -173,12 +203,45 @@ silence of the checks for a claim.
 * C13 - a constant assignment (`.Lc = 5`) in one chunk used in a later chunk yields a symbolic operand where the
   concatenated text folds the constant (assignments are outside the generated vocabulary).
 * C16 - with `align_stack` the x86 prologue's `and` changes the flags even when the patch did not declare them
-  clobbered (the statement asks for restoring declared clobbers); a register named both in `clobbers_registers` and
-  `reads_registers` raises ValueError from `list.remove`.
+  clobbered (the statement asks for restoring declared clobbers). (The ValueError from `list.remove` for a register
+  named both in `clobbers_registers` and `reads_registers`, noted here after round 4, was repaired in round 5:
+  1c07dac.)
 * C18 - MIPS32 `jal A`: capstone puts `jal` in neither the jump nor the call group, so the operand is retargeted
   and the Call edge stays (the retarget engine is x86-64).
 * C20 - `OffsetMapping.clear()` (inherited, not among the operations the property lists) leaves empty per-element
   dictionaries behind.
+
+Round 5 (same procedure; items that repeat the list above are not repeated):
+
+* C02 - a symbol with an integral payload in the middle of a block (`assign_integral_symbols` turns it into a
+  zero-sized block inside the big one): deleting the bytes around it leaves the three labels inside the block in
+  front. Overlapping/nested blocks again; the listing has none.
+* C06 - the nop block `join_byte_intervals` adds for alignment between two blocks of one function belongs to no
+  function (C03 and C10 treat padding as transparent; C06's oracle does not ask for its membership).
+* C09/C05 - after a *refused* batch the byte intervals are left split and keep the addresses they had before the
+  first request grew one of them: they overlap by address (the module is closed and serializable, which is what
+  C05 asks; C09's comparison of refused batches looks at edges, symbols, proxies and function tables only).
+* C10 - when sections collide after a rewrite, `gtirb_layout.layout_module` places each interval by the alignment
+  of its first aligned block only: a second aligned block further inside the interval (alignments 4 and 16 in one
+  interval) can lose an alignment that held before. The C10 finding about `join_byte_intervals` is the same rule
+  inside gtirb-rewriting; this one is the dependency's.
+* C11 - two `register_insert_function` requests registered in the other order swap the numeric suffixes of their
+  temporary labels (the patch counter follows registration order there, address order elsewhere), and where
+  `gtirb_layout` puts the two new intervals is set-order dependent anyway.
+* C12 - MIPS32 `jalr.hb` does not end its block (not in the generated vocabulary).
+* C13 - error paths of the assembler that the property does not name: with a diagnostic callback that swallows
+  errors, redefining a module name ends in KeyError; a chunk refused with UndefSymbolError leaves its pre-created
+  labels behind, so the corrected chunk is refused as a redefinition; `register_insert_function('f')` on a module
+  that defines `f` creates a second symbol of that name (the TODO in the source).
+* C14/C15 - truncated input: `Instruction.decode(b'')` returns a nop and `Operation.decode` reads a 2-byte operand
+  from 1 byte (the properties quantify over encodings of accepted operands); a truncated `.cfi_escape` leaves
+  `evaluate_cfi_directives` with EOFError or, for a short fixed-width operand, a state (C15's list of ill-formed
+  sequences does not include malformed escape bytes); `.cfi_startproc` on the PE ABIs raises NotImplementedError.
+* C17 - a custom IA32 convention that asks for 16-byte alignment with `align_stack`: the prologue's two pushes
+  behind the `and` leave esp at 8 mod 16 (IA32's own convention asks for 4); `CallPatch(second of two symbols
+  named helper)` calls the first (names, not symbols, go through the assembler; after 65bdcea the choice is at least
+  repeatable).
+* C18 - MIPS32 `jal A` (see above; `bal` is covered by 793ca62).
 """
 
 BEGIN = "<!-- BEGIN AS-BUILT (generated by harness/design_gen.py; edit the sources, not this part) -->"
